@@ -1,5 +1,5 @@
 SPECIFICATION Spec
 CONSTANTS
   MaxArgs = 3
-INVARIANTS SrcOrRecvFirst DstPlace ArgsInOrder ErrLast NamesPreserved IllegalRejected DistinctNames QualifierUsed Emit
+INVARIANTS SrcOrRecvFirst DstPlace ArgsInOrder ErrLast NamesPreserved ResultNamePreserved IllegalRejected DistinctNames QualifierUsed Emit
 CHECK_DEADLOCK FALSE
